@@ -81,7 +81,7 @@ def main():
         "engines": [
             {"name": "heap", "path": "/verif/spec/Heap.tla", "serves_properties": ["C10", "C02", "C16"],
              "kind_free_text": "TLA+ spec of allocator/collector; TLC model checking, behaviour generation (-simulate), trace validation of the real gc.c"},
-            {"name": "core", "path": "/verif/spec/Core.tla", "serves_properties": ["C03", "C05", "C06", "C09"],
+            {"name": "core", "path": "/verif/spec/Core.tla", "serves_properties": ["C03", "C05", "C06", "C07", "C09"],
              "kind_free_text": "definitional CESK machine in TLA+ run by TLC on generated programs; outputs of the real interpreter compared by TLC"},
             {"name": "prim", "path": "/verif/spec/Prim.tla", "serves_properties": ["C01"],
              "kind_free_text": "contract table of memory-indexing primitives; TLC-enumerated call space; session trace validation"},
@@ -106,7 +106,7 @@ def main():
 
 
 NA = {}
-APPROVED = ["C11", "C03", "C05", "C06", "C09", "C01", "C13"]
+APPROVED = ["C11", "C03", "C05", "C06", "C09", "C01", "C13", "C07"]
 
 if __name__ == "__main__":
     main()
